@@ -2,7 +2,7 @@
 //!
 //! Spaces: all 2^32 words through `BinaryCard::from_ckc` (complete); `CKCNumber::from_binary_card` on 0, all 64
 //! single bits, every value of population count <= 3 and >= 61, every value of the low 28 bits and of the high 28
-//! bits (thorough: of every 28-bit window at offsets 0, 12, 24, 36), rank-group masks, ALL, OVERFLOW; the 52
+//! bits and of the 28-bit windows at offsets 12 and 24, rank-group masks, ALL, OVERFLOW; the 52
 //! named bit constants and `BinaryCard::DECK`; round trips both ways.
 //! Oracle: card i of the deck <-> bit 51 - i.
 use super::consts::{named_bits, rank_groups};
@@ -225,7 +225,8 @@ pub fn run(ctx: &Ctx, rep: &mut Report) {
         rep.add_space("from_binary_card: 0, all values of population count <= 3 and >= 61, group masks, ALL, OVERFLOW", &acc, t0, "");
     }
     {
-        let offsets: Vec<u32> = if ctx.tier.thorough() { vec![0, 12, 24, 36] } else { vec![0, 36] };
+        let offsets: Vec<u32> = vec![0, 12, 24, 36];
+        let _ = ctx;
         for off in offsets {
             let t0 = Instant::now();
             let kind = monitor::kind_id("from_binary_card");
